@@ -235,7 +235,7 @@ func newXTS(m *mon.M, key []byte) *xts.Cipher {
 func TestC13(t *testing.T) {
 	m := mon.New(t, "C13")
 	defer m.Done()
-	m.Rule("stream xts: case i fixes the key size (i mod 8: 32,32,32,64,64,64,48,32/64 -> AES-128/256/192 pairs), the sector class ((i div 8) mod 4: 0 -> the boundary set {0,1,2^32-1,2^32,2^63,2^64-1} in rotation, 1 -> neighbours of the boundaries, else random 64-bit / small) and draws key (75% random, else zero, key1=key2, halves differing in one bit), length 16k with k log-uniform in 1..256 (thorough: sometimes up to 4096 blocks) and plaintext (random/zero/ones/identical blocks); per case: Encrypt vs IEEE 1619 ref (separate buffers, dst==src), Decrypt(Encrypt(x))=x (both), Decrypt(x) vs ref; 1/16 of the cases additionally run 4 goroutines on one Cipher. Streams yielding-cipher-concurrent-{p1,pN}: 4..8 goroutines each run a fixed PRNG-determined list of 2..4 Encrypt/Decrypt operations (1..32 blocks, in place or not, boundary/small/random sectors) on one shared Cipher (even cases) or on distinct Ciphers (odd cases) built over AES or Twofish wrapped in a block cipher that calls runtime.Gosched() in every call and holds each goroutine inside its first operation until all goroutines of the case are inside one; pass p1 runs under GOMAXPROCS(1), pass pN at the default; every output is compared with the ref (Twofish variant: xtsref construction over the paper-derived Twofish ref). Enumerated parts: every length 16..4096 step 16 for AES-128 and AES-256; every boundary sector x key size; NewCipher with every key length 0..80; refused inputs (lengths not a multiple of 16, dst shorter than src) must panic and valid ones must not; ciphers with block size != 16 must be refused. distinct = (key size, key kind, sector class, length class); non-trivial = reached a ref comparison or an expected-panic observation")
+	m.Rule("stream xts: case i fixes the key size (i mod 8: 32,32,32,64,64,64,48,32/64 -> AES-128/256/192 pairs), the sector class ((i div 8) mod 4: 0 -> the boundary set {0,1,2^32-1,2^32,2^63,2^64-1} in rotation, 1 -> neighbours of the boundaries, else random 64-bit / small) and draws key (75% random, else zero, key1=key2, halves differing in one bit), length 16k with k log-uniform in 1..256 (thorough: sometimes up to 4096 blocks) and plaintext (random/zero/ones/identical blocks); per case: Encrypt vs IEEE 1619 ref (separate buffers, dst==src), Decrypt(Encrypt(x))=x (both), Decrypt(x) vs ref; 1/16 of the cases additionally run 4 goroutines on one Cipher. Streams yielding-cipher-concurrent-{p1,pN}: 4..8 goroutines each run a fixed PRNG-determined list of 2..4 Encrypt/Decrypt operations (1..32 blocks, in place or not, boundary/small/random sectors) on one shared Cipher (even cases) or on distinct Ciphers (odd cases) built over AES or Twofish wrapped in a block cipher that calls runtime.Gosched() in every call and holds each goroutine inside its first operation until all goroutines of the case are inside one; pass p1 runs under GOMAXPROCS(1), pass pN at the default; every output is compared with the ref (Twofish variant: xtsref construction over the paper-derived Twofish ref). Stream constructor-argument-retention: xts.NewCipher over AES and Twofish from a caller key buffer (with spare capacity) that is afterwards zeroed / overwritten / bit-flipped, in half of the cases after a second Cipher was built from the same buffer refilled with another key; each Cipher must still equal the ref under its own original key. Enumerated parts: every length 16..4096 step 16 for AES-128 and AES-256; every boundary sector x key size; NewCipher with every key length 0..80; refused inputs (lengths not a multiple of 16, dst shorter than src) must panic and valid ones must not; ciphers with block size != 16 must be refused. distinct = (key size, key kind, sector class, length class); non-trivial = reached a ref comparison or an expected-panic observation")
 	m.Assume("xtsref (math/big GF(2^128) doubling over crypto/aes) is validated on IEEE 1619 vectors 1,2,3,4,10 and against libgcrypt and nettle; crypto/aes is trusted (AES is not under test); libgcrypt has no XTS-AES-192: AES-192 pairs are judged by ref + nettle (generic xts over aes192)")
 	m.Assume("sector number -> tweak is the 128-bit little-endian encoding of IEEE 1619 §5.1; the witnesses receive the tweak bytes produced by the ref's encoder (validated by IEEE vectors with sector 0x3333333333 and 0xff)")
 
@@ -325,6 +325,8 @@ func TestC13(t *testing.T) {
 	concTotal := m.N(64, 800)
 	yieldingConcurrentXTS(m, "p1", concTotal) // GOMAXPROCS(1): one P, one sync.Pool slot
 	yieldingConcurrentXTS(m, "pN", concTotal) // default GOMAXPROCS
+
+	xtsConstructorArgumentRetention(m, m.N(120, 2400))
 
 	// ---- exhaustive: every length 16..4096 for AES-128 and AES-256 pairs ----
 	m.Cases("xts-every-length", 2*256, func(i int64, r *rand.Rand) {
